@@ -61,6 +61,6 @@ func (l *JSON) Unmarshal(b []byte) error {
 }
 
 // Config must return a threadsafe copy of the underlying config.
-func (l JSON) Config() chan config.ServerConfig {
+func (l *JSON) Config() chan config.ServerConfig {
 	return l.config
 }
